@@ -42,6 +42,591 @@ Proof.
 Qed.
 
 (* ------------------------------------------------------------------ *)
+(* N-keyed sorted maps *)
+
+Definition Neq := ol_eq _ N_order.
+Definition Nas := ol_antisym _ N_order.
+Definition Ntr := ol_trans _ N_order.
+
+Section NMap.
+  Context {V : Type}.
+  Implicit Types (m : list (N * V)).
+
+  Lemma nf_set k k' v m : nfind k' (nset k v m) = if k' =? k then Some v else nfind k' m.
+  Proof.
+    destruct (N.eqb_spec k' k) as [->|Hne].
+    - apply find_set_same; exact Neq.
+    - apply find_set_other; [exact Neq|exact Hne].
+  Qed.
+
+  Lemma nf_del k k' m : nsorted m -> nfind k' (ndel k m) = if k' =? k then None else nfind k' m.
+  Proof.
+    intros Hs. destruct (N.eqb_spec k' k) as [->|Hne].
+    - apply find_del_same; [exact Neq|exact Ntr|exact Hs].
+    - apply find_del_other; [exact Neq|exact Hne].
+  Qed.
+
+  Lemma ns_set k v m : nsorted m -> nsorted (nset k v m).
+  Proof. apply set_sorted; [exact Neq|exact Nas]. Qed.
+
+  Lemma ns_del k m : nsorted m -> nsorted (ndel k m).
+  Proof. apply del_sorted; exact Ntr. Qed.
+
+  Lemma n_ext m1 m2 : nsorted m1 -> nsorted m2 -> (forall k, nfind k m1 = nfind k m2) -> m1 = m2.
+  Proof. apply sorted_ext; [exact Neq|exact Nas|exact Ntr]. Qed.
+
+  Lemma nf_in k v m : nfind k m = Some v -> In (k, v) m.
+  Proof. apply find_in; exact Neq. Qed.
+
+  Lemma n_in_f k v m : nsorted m -> In (k, v) m -> nfind k m = Some v.
+  Proof. apply in_find; [exact Neq|exact Nas|exact Ntr]. Qed.
+
+  Lemma nf_opt_set k k' (v : option V) m :
+    nsorted m -> nfind k' (opt_set k v m) = if k' =? k then v else nfind k' m.
+  Proof. intros Hs. destruct v; cbn [opt_set]; [apply nf_set|apply nf_del, Hs]. Qed.
+
+  Lemma ns_opt_set k (v : option V) m : nsorted m -> nsorted (opt_set k v m).
+  Proof. intros Hs. destruct v; cbn [opt_set]; [apply ns_set|apply ns_del]; exact Hs. Qed.
+
+  Lemma nmem_find k m : nmem k m = match nfind k m with Some _ => true | None => false end.
+  Proof. reflexivity. Qed.
+
+  Lemma nmem_set k k' v m : nmem k' (nset k v m) = (k' =? k) || nmem k' m.
+  Proof. unfold mem. rewrite nf_set. destruct (k' =? k); reflexivity. Qed.
+
+  Lemma nmem_del k k' m : nsorted m -> nmem k' (ndel k m) = negb (k' =? k) && nmem k' m.
+  Proof. intros Hs. unfold mem. rewrite nf_del by exact Hs. destruct (k' =? k); reflexivity. Qed.
+
+  Lemma nsorted_NoDup m : nsorted m -> NoDup (map fst m).
+  Proof.
+    induction m as [|[k v] r IH]; cbn; intros Hs; [constructor|].
+    destruct Hs as [Hlb Hs]. constructor; [|auto].
+    intros Hin. apply in_map_iff in Hin. destruct Hin as [[k' v'] [E Hin]]. cbn in E; subst k'.
+    pose proof (lb_all N.compare Ntr k r Hs Hlb k v' Hin) as H.
+    rewrite N.compare_refl in H. discriminate.
+  Qed.
+End NMap.
+
+(* ------------------------------------------------------------------ *)
+(* boolean equalities *)
+
+Lemma list_eqb_spec a b : list_eqb a b = true <-> a = b.
+Proof.
+  revert b; induction a as [|x a IH]; destruct b as [|y b]; cbn; try (split; [reflexivity|reflexivity] || split; discriminate).
+  rewrite andb_true_iff, N.eqb_eq, IH. split; [intros [-> ->]; reflexivity|intros H; inversion H; auto].
+Qed.
+
+Lemma att_eqb_spec a b : att_eqb a b = true <-> a = b.
+Proof.
+  destruct a as [t d|x], b as [t' d'|x']; cbn; try (split; discriminate).
+  - rewrite andb_true_iff, N.eqb_eq, list_eqb_spec. split; [intros [-> ->]; reflexivity|intros H; inversion H; auto].
+  - rewrite N.eqb_eq. split; [intros ->; reflexivity|intros H; inversion H; auto].
+Qed.
+
+Lemma akey_eqb_spec a b : akey_eqb a b = true <-> a = b.
+Proof.
+  destruct a as [e1 b1 w1 i1], b as [e2 b2 w2 i2]; unfold akey_eqb; cbn.
+  rewrite !andb_true_iff, !eqb_true_iff, !N.eqb_eq.
+  split; [intros [[[-> ->] ->] ->]; reflexivity|intros H; inversion H; auto].
+Qed.
+
+Lemma opt_eqb_spec {A} (eqb : A -> A -> bool) :
+  (forall x y, eqb x y = true <-> x = y) -> forall a b, opt_eqb eqb a b = true <-> a = b.
+Proof.
+  intros H [x|] [y|]; cbn; try (split; [reflexivity|reflexivity] || split; discriminate).
+  rewrite H. split; [intros ->; reflexivity|intros E; inversion E; auto].
+Qed.
+
+Lemma erec_eqb_spec a b : erec_eqb a b = true <-> a = b.
+Proof.
+  destruct a as [[f t] y], b as [[f' t'] y']; unfold erec_eqb, e_from, e_to, e_ty; cbn.
+  rewrite !andb_true_iff, !N.eqb_eq. split; [intros [[-> ->] ->]; reflexivity|intros H; inversion H; auto].
+Qed.
+
+Lemma imeta_eqb_spec a b : imeta_eqb a b = true <-> a = b.
+Proof.
+  destruct a as [r p], b as [r' p']; unfold imeta_eqb; cbn.
+  rewrite andb_true_iff, N.eqb_eq, (opt_eqb_spec akey_eqb akey_eqb_spec).
+  split; [intros [-> ->]; reflexivity|intros H; inversion H; auto].
+Qed.
+
+Lemma att_eqb_refl a : att_eqb a a = true.
+Proof. apply att_eqb_spec; reflexivity. Qed.
+Lemma akey_eqb_refl a : akey_eqb a a = true.
+Proof. apply akey_eqb_spec; reflexivity. Qed.
+
+Lemma att_eqb_false a b : att_eqb a b = false <-> a <> b.
+Proof. rewrite <- att_eqb_spec. destruct (att_eqb a b); split; congruence. Qed.
+Lemma akey_eqb_false a b : akey_eqb a b = false <-> a <> b.
+Proof. rewrite <- akey_eqb_spec. destruct (akey_eqb a b); split; congruence. Qed.
+
+(* ------------------------------------------------------------------ *)
+(* structural invariant kept by every op: canonical maps, stores and instances in step *)
+
+Definition Struct (st : state) : Prop :=
+  nsorted (st_stores st) /\ nsorted (st_insts st) /\
+  (forall w, nmem w (st_stores st) = nmem w (st_insts st)) /\
+  (forall w s, get_store st w = Some s -> store_sorted s).
+
+Definition Owned (st : state) : Prop := forall w s, get_store st w = Some s -> store_owned s.
+
+Lemma WFs_split st : WFs st <-> Struct st /\ Owned st.
+Proof.
+  unfold WFs, Struct, Owned. split.
+  - intros (H1 & H2 & H3 & H4). split; [split; [exact H1|split; [exact H2|split; [exact H3|]]]|].
+    + intros w s Hs. exact (proj1 (H4 w s Hs)).
+    + intros w s Hs. exact (proj2 (H4 w s Hs)).
+  - intros ((H1 & H2 & H3 & H4) & H5). split; [exact H1|split; [exact H2|split; [exact H3|]]].
+    intros w s Hs. split; [exact (H4 w s Hs)|exact (H5 w s Hs)].
+Qed.
+
+Lemma empty_store_sorted : store_sorted empty_store.
+Proof. repeat split. Qed.
+
+Lemma sync_store_inst st w : Struct st -> (get_store st w = None <-> get_inst st w = None).
+Proof.
+  intros (_ & _ & Hsync & _). specialize (Hsync w). unfold get_store, get_inst, mem in *.
+  destruct (nfind w (st_stores st)), (nfind w (st_insts st)); split; intros; congruence.
+Qed.
+
+Lemma Struct_put_store st w s s0 :
+  Struct st -> get_store st w = Some s0 -> store_sorted s -> Struct (put_store st w s).
+Proof.
+  intros (H1 & H2 & H3 & H4) Hg Hs. unfold put_store. split; [|split; [|split]]; cbn.
+  - apply ns_set, H1.
+  - exact H2.
+  - intros w'. rewrite nmem_set, <- H3. destruct (N.eqb_spec w' w) as [->|]; cbn; [|reflexivity].
+    unfold mem. unfold get_store in Hg. rewrite Hg. reflexivity.
+  - intros w' s'. unfold get_store; cbn. rewrite nf_set. destruct (N.eqb_spec w' w) as [->|].
+    + intros E; inversion E; subst; exact Hs.
+    + apply H4.
+Qed.
+
+Lemma Struct_upsert_instance st w m s :
+  Struct st -> store_sorted s -> Struct (upsert_instance st w m s).
+Proof.
+  intros (H1 & H2 & H3 & H4) Hs. unfold upsert_instance. split; [|split; [|split]]; cbn.
+  - apply ns_set, H1.
+  - apply ns_set, H2.
+  - intros w'. rewrite !nmem_set, H3. reflexivity.
+  - intros w' s'. unfold get_store; cbn. rewrite nf_set. destruct (N.eqb_spec w' w) as [->|].
+    + intros E; inversion E; subst; exact Hs.
+    + apply H4.
+Qed.
+
+Lemma insert_node_sorted s n ty : store_sorted s -> store_sorted (insert_node s n ty).
+Proof. intros (A & B & C & D). repeat split; cbn; auto. apply ns_set, A. Qed.
+Lemma upsert_edge_sorted s e r : store_sorted s -> store_sorted (upsert_edge s e r).
+Proof. intros (A & B & C & D). repeat split; cbn; auto. apply ns_set, B. Qed.
+Lemma set_node_att_sorted s n v : store_sorted s -> store_sorted (set_node_att s n v).
+Proof. intros (A & B & C & D). repeat split; cbn; auto. apply ns_opt_set, C. Qed.
+Lemma set_edge_att_sorted s e v : store_sorted s -> store_sorted (set_edge_att s e v).
+Proof. intros (A & B & C & D). repeat split; cbn; auto. apply ns_opt_set, D. Qed.
+
+Lemma delete_node_isolated_sorted s n s' :
+  store_sorted s -> delete_node_isolated s n = DnOk s' -> store_sorted s'.
+Proof.
+  intros (A & B & C & D). unfold delete_node_isolated.
+  destruct (nfind n (s_nodes s)); [|discriminate]. destruct (existsb _ _); [discriminate|].
+  intros E; inversion E; subst. repeat split; cbn; auto; apply ns_del; auto.
+Qed.
+
+Lemma delete_edge_exact_sorted s f e s' :
+  store_sorted s -> delete_edge_exact s f e = Some s' -> store_sorted s'.
+Proof.
+  intros (A & B & C & D). unfold delete_edge_exact.
+  destruct (nfind e (s_edges s)); [|discriminate]. destruct (_ =? _); [|discriminate].
+  intros E; inversion E; subst. repeat split; cbn; auto; apply ns_del; auto.
+Qed.
+
+Lemma Struct_store st w s : Struct st -> get_store st w = Some s -> store_sorted s.
+Proof. intros (_ & _ & _ & H). apply H. Qed.
+
+Lemma ensure_child_root_Struct st cw cr init st' :
+  Struct st -> ensure_child_root st cw cr init = Ok st' -> Struct st'.
+Proof.
+  intros HS. unfold ensure_child_root. destruct (get_store st cw) as [s|] eqn:G; [|discriminate].
+  destruct init as [ty|].
+  - destruct (nfind cr (s_nodes s)) as [ty'|].
+    + destruct (ty' =? ty); [|discriminate]. intros E; inversion E; subst; exact HS.
+    + intros E; inversion E; subst. eapply Struct_put_store; eauto.
+      apply insert_node_sorted. eapply Struct_store; eauto.
+  - destruct (nfind cr (s_nodes s)); [|discriminate]. intros E; inversion E; subst; exact HS.
+Qed.
+
+Lemma set_att_raw_Struct st pw k v st' :
+  Struct st -> set_att_raw st pw k v = Ok st' -> Struct st'.
+Proof.
+  intros HS. unfold set_att_raw. destruct (get_store st pw) as [s|] eqn:G; [|discriminate].
+  intros E; inversion E; subst. eapply Struct_put_store; eauto.
+  pose proof (Struct_store _ _ _ HS G).
+  destruct (ak_edge k); [apply set_edge_att_sorted|apply set_node_att_sorted]; auto.
+Qed.
+
+Lemma Struct_delete_instance st w :
+  Struct st -> Struct (mk_state (ndel w (st_stores st)) (ndel w (st_insts st))).
+Proof.
+  intros (H1 & H2 & H3 & H4). split; [|split; [|split]]; cbn.
+  - apply ns_del, H1.
+  - apply ns_del, H2.
+  - intros w'. rewrite !nmem_del by assumption. rewrite H3. reflexivity.
+  - intros w' s'. unfold get_store; cbn. rewrite nf_del by assumption.
+    destruct (w' =? w); [discriminate|]. apply H4.
+Qed.
+
+Lemma apply_op_Struct st o st' : Struct st -> apply_op st o = Ok st' -> Struct st'.
+Proof.
+  intros HS. destruct o as [k cw cr init|w root parent|w|w n ty|w n|w e f t ty|w f e|k v]; cbn [apply_op].
+  - unfold apply_open_portal, bind. destruct (validate_owner st k) as [pw|]; [|discriminate].
+    destruct (get_inst st cw) as [m|].
+    + destruct (_ || _); [discriminate|].
+      destruct (ensure_child_root st cw cr init) as [st1|] eqn:E1; [|discriminate].
+      intros E. eapply set_att_raw_Struct; [|exact E]. eapply ensure_child_root_Struct; eauto.
+    + destruct init as [ty|]; [|discriminate].
+      intros E. eapply set_att_raw_Struct; [|exact E]. apply Struct_upsert_instance; auto.
+      apply insert_node_sorted, empty_store_sorted.
+  - intros E; inversion E; subst. apply Struct_upsert_instance; auto.
+    destruct (get_store st w) eqn:G; [eapply Struct_store; eauto|apply empty_store_sorted].
+  - destruct (get_inst st w); [|discriminate]. intros E; inversion E; subst. apply Struct_delete_instance, HS.
+  - destruct (get_store st w) as [s|] eqn:G; [|discriminate]. intros E; inversion E; subst.
+    eapply Struct_put_store; eauto. apply insert_node_sorted. eapply Struct_store; eauto.
+  - destruct (get_store st w) as [s|] eqn:G; [|discriminate].
+    destruct (delete_node_isolated s n) as [s'| |] eqn:D; try discriminate.
+    intros E; inversion E; subst. eapply Struct_put_store; eauto.
+    eapply delete_node_isolated_sorted; eauto. eapply Struct_store; eauto.
+  - destruct (get_store st w) as [s|] eqn:G; [|discriminate]. intros E; inversion E; subst.
+    eapply Struct_put_store; eauto. apply upsert_edge_sorted. eapply Struct_store; eauto.
+  - destruct (get_store st w) as [s|] eqn:G; [|discriminate].
+    destruct (delete_edge_exact s f e) as [s'|] eqn:D; [|discriminate].
+    intros E; inversion E; subst. eapply Struct_put_store; eauto.
+    eapply delete_edge_exact_sorted; eauto. eapply Struct_store; eauto.
+  - unfold apply_set_att. destruct (negb (plane_valid k)); [discriminate|].
+    destruct (get_store st (ak_warp k)) as [s|] eqn:G; [|discriminate].
+    pose proof (Struct_store _ _ _ HS G) as Hss.
+    destruct (ak_edge k).
+    + destruct (has_edge s (ak_id k)); [|discriminate]. intros E; inversion E; subst.
+      eapply Struct_put_store; eauto. apply set_edge_att_sorted, Hss.
+    + destruct (nfind (ak_id k) (s_nodes s)); [|discriminate]. intros E; inversion E; subst.
+      eapply Struct_put_store; eauto. apply set_node_att_sorted, Hss.
+Qed.
+
+Lemma apply_loop_Struct ops : forall st t st' t',
+  Struct st -> apply_loop st t ops = Ok (st', t') -> Struct st'.
+Proof.
+  induction ops as [|o ops IH]; intros st t st' t' HS; cbn [apply_loop].
+  - intros E; inversion E; subst; exact HS.
+  - destruct (apply_op st o) as [st1|] eqn:E1; [|discriminate].
+    apply IH. eapply apply_op_Struct; eauto.
+Qed.
+
+Lemma apply_ops_loop ops a s : apply_ops ops a = Ok s -> exists t, apply_loop a false ops = Ok (s, t).
+Proof. intros H. apply apply_ops_ok_iff in H. destruct H as [t [H _]]. eauto. Qed.
+
+Lemma apply_ops_Struct ops a s : Struct a -> apply_ops ops a = Ok s -> Struct s.
+Proof. intros HS H. apply apply_ops_loop in H. destruct H as [t H]. eapply apply_loop_Struct; eauto. Qed.
+
+(* ------------------------------------------------------------------ *)
+(* slots: a state seen as a function from slots to values *)
+
+Inductive slot :=
+| SInst (w : N) | SNode (w n : N) | SEdge (w e : N) | SNatt (w n : N) | SEatt (w e : N).
+Inductive sval := VInst (m : imeta) | VNode (ty : N) | VEdge (r : erec) | VAtt (v : att).
+
+Definition slot_warp (sl : slot) : N :=
+  match sl with SInst w | SNode w _ | SEdge w _ | SNatt w _ | SEatt w _ => w end.
+
+Definition slot_eqb (a b : slot) : bool :=
+  match a, b with
+  | SInst w, SInst w' => w =? w'
+  | SNode w n, SNode w' n' | SEdge w n, SEdge w' n' | SNatt w n, SNatt w' n' | SEatt w n, SEatt w' n' =>
+      (w =? w') && (n =? n')
+  | _, _ => false
+  end.
+
+Lemma slot_eqb_spec a b : slot_eqb a b = true <-> a = b.
+Proof.
+  destruct a, b; cbn; try (split; discriminate);
+    rewrite ?andb_true_iff, ?N.eqb_eq;
+    (split; [intros; repeat match goal with H : _ /\ _ |- _ => destruct H end; subst; reflexivity
+            |intros H; inversion H; auto]).
+Qed.
+
+Lemma slot_eqb_refl a : slot_eqb a a = true.
+Proof. apply slot_eqb_spec; reflexivity. Qed.
+
+Lemma slot_eqb_false a b : slot_eqb a b = false <-> a <> b.
+Proof. rewrite <- slot_eqb_spec. destruct (slot_eqb a b); split; congruence. Qed.
+
+Definition slook (s : store) (sl : slot) : option sval :=
+  match sl with
+  | SInst _ => None
+  | SNode _ n => option_map VNode (nfind n (s_nodes s))
+  | SEdge _ e => option_map VEdge (nfind e (s_edges s))
+  | SNatt _ n => option_map VAtt (nfind n (s_natt s))
+  | SEatt _ e => option_map VAtt (nfind e (s_eatt s))
+  end.
+
+Definition look (st : state) (sl : slot) : option sval :=
+  match sl with
+  | SInst w => option_map VInst (get_inst st w)
+  | _ => match get_store st (slot_warp sl) with Some s => slook s sl | None => None end
+  end.
+
+Definition att_slot (k : akey) : slot :=
+  if ak_edge k then SEatt (ak_warp k) (ak_id k) else SNatt (ak_warp k) (ak_id k).
+
+(* what an op writes: [Some c] = the slot becomes [c]; [None] = untouched *)
+Definition wr (o : op) (sl : slot) : option (option sval) :=
+  match o with
+  | OpenPortal k cw cr (Some ty) =>
+      if slot_eqb sl (SInst cw) then Some (Some (VInst (cr, Some k)))
+      else if slot_eqb sl (SNode cw cr) then Some (Some (VNode ty))
+      else if slot_eqb sl (att_slot k) then Some (Some (VAtt (Descend cw)))
+      else None
+  | OpenPortal _ _ _ None => None
+  | UpsertWI w r p => if slot_eqb sl (SInst w) then Some (Some (VInst (r, p))) else None
+  | DeleteWI w => if slot_warp sl =? w then Some None else None
+  | UpsertNode w n ty => if slot_eqb sl (SNode w n) then Some (Some (VNode ty)) else None
+  | DeleteNode w n => if slot_eqb sl (SNode w n) || slot_eqb sl (SNatt w n) then Some None else None
+  | UpsertEdge w e f t ty => if slot_eqb sl (SEdge w e) then Some (Some (VEdge (f, t, ty))) else None
+  | DeleteEdge w f e => if slot_eqb sl (SEdge w e) || slot_eqb sl (SEatt w e) then Some None else None
+  | SetAtt k v => if slot_eqb sl (att_slot k) then Some (option_map VAtt v) else None
+  end.
+
+Definition upd (o : op) (f : slot -> option sval) (sl : slot) : option sval :=
+  match wr o sl with Some c => c | None => f sl end.
+
+(* two structurally sound states with the same slot values are equal *)
+Lemma option_map_inj {A B} (f : A -> B) : (forall x y, f x = f y -> x = y) ->
+  forall a b, option_map f a = option_map f b -> a = b.
+Proof. intros Hi [x|] [y|]; cbn; intros E; inversion E; auto. f_equal; auto. Qed.
+
+Lemma look_ext s1 s2 : Struct s1 -> Struct s2 -> (forall sl, look s1 sl = look s2 sl) -> s1 = s2.
+Proof.
+  intros HS1 HS2 Hl.
+  pose proof HS1 as (A1 & B1 & C1 & D1). pose proof HS2 as (A2 & B2 & C2 & D2).
+  assert (Hi : st_insts s1 = st_insts s2).
+  { apply n_ext; auto. intros w. specialize (Hl (SInst w)). cbn in Hl.
+    apply (option_map_inj VInst) in Hl; [exact Hl|]. intros x y E; inversion E; auto. }
+  assert (Hs : st_stores s1 = st_stores s2).
+  { apply n_ext; auto. intros w.
+    pose proof (sync_store_inst s1 w HS1) as Y1. pose proof (sync_store_inst s2 w HS2) as Y2.
+    unfold get_inst in *. rewrite <- Hi in Y2. unfold get_store in *.
+    destruct (nfind w (st_stores s1)) as [x1|] eqn:E1, (nfind w (st_stores s2)) as [x2|] eqn:E2.
+    - f_equal. destruct (D1 w x1 E1) as (a1 & b1 & c1 & d1). destruct (D2 w x2 E2) as (a2 & b2 & c2 & d2).
+      destruct x1 as [n1 e1 na1 ea1], x2 as [n2 e2 na2 ea2]; cbn in *. f_equal.
+      + apply n_ext; auto. intros n. specialize (Hl (SNode w n)). cbn in Hl. unfold get_store in Hl.
+        rewrite E1, E2 in Hl. cbn in Hl. apply (option_map_inj VNode) in Hl; auto. intros x y E; inversion E; auto.
+      + apply n_ext; auto. intros n. specialize (Hl (SEdge w n)). cbn in Hl. unfold get_store in Hl.
+        rewrite E1, E2 in Hl. cbn in Hl. apply (option_map_inj VEdge) in Hl; auto. intros x y E; inversion E; auto.
+      + apply n_ext; auto. intros n. specialize (Hl (SNatt w n)). cbn in Hl. unfold get_store in Hl.
+        rewrite E1, E2 in Hl. cbn in Hl. apply (option_map_inj VAtt) in Hl; auto. intros x y E; inversion E; auto.
+      + apply n_ext; auto. intros n. specialize (Hl (SEatt w n)). cbn in Hl. unfold get_store in Hl.
+        rewrite E1, E2 in Hl. cbn in Hl. apply (option_map_inj VAtt) in Hl; auto. intros x y E; inversion E; auto.
+    - exfalso. destruct Y2 as [Y2 _]. specialize (Y2 eq_refl). destruct Y1 as [_ Y1]. specialize (Y1 Y2). discriminate.
+    - exfalso. destruct Y1 as [Y1 _]. specialize (Y1 eq_refl). destruct Y2 as [_ Y2]. specialize (Y2 Y1). discriminate.
+    - reflexivity. }
+  destruct s1, s2; cbn in *; subst; reflexivity.
+Qed.
+
+(* look after replacing one store *)
+Lemma look_put_store st w s sl :
+  look (put_store st w s) sl =
+  match sl with
+  | SInst _ => look st sl
+  | _ => if slot_warp sl =? w then slook s sl else look st sl
+  end.
+Proof.
+  destruct sl; cbn; try reflexivity; unfold get_store; cbn; rewrite nf_set;
+    destruct (N.eqb_spec w0 w); reflexivity.
+Qed.
+
+Lemma look_store st sl s :
+  get_store st (slot_warp sl) = Some s -> look st sl = match sl with SInst _ => look st sl | _ => slook s sl end.
+Proof. destruct sl; cbn; intros E; try reflexivity; rewrite E; reflexivity. Qed.
+
+Ltac eqb_cases :=
+  repeat match goal with
+         | |- context [?a =? ?b] => destruct (N.eqb_spec a b); subst
+         | H : context [?a =? ?b] |- _ => destruct (N.eqb_spec a b); subst
+         end.
+
+(* store-level effects *)
+Lemma slook_insert_node s n ty sl :
+  slook (insert_node s n ty) sl =
+  match sl with SNode _ n' => if n' =? n then Some (VNode ty) else slook s sl | _ => slook s sl end.
+Proof. destruct sl; cbn; try reflexivity. rewrite nf_set. destruct (n0 =? n); reflexivity. Qed.
+
+Lemma slook_upsert_edge s e r sl :
+  slook (upsert_edge s e r) sl =
+  match sl with SEdge _ e' => if e' =? e then Some (VEdge r) else slook s sl | _ => slook s sl end.
+Proof. destruct sl; cbn; try reflexivity. rewrite nf_set. destruct (e0 =? e); reflexivity. Qed.
+
+Lemma slook_set_node_att s n v sl : store_sorted s ->
+  slook (set_node_att s n v) sl =
+  match sl with SNatt _ n' => if n' =? n then option_map VAtt v else slook s sl | _ => slook s sl end.
+Proof.
+  intros (_ & _ & C & _). destruct sl; cbn; try reflexivity. rewrite nf_opt_set by exact C.
+  destruct (n0 =? n); reflexivity.
+Qed.
+
+Lemma slook_set_edge_att s e v sl : store_sorted s ->
+  slook (set_edge_att s e v) sl =
+  match sl with SEatt _ e' => if e' =? e then option_map VAtt v else slook s sl | _ => slook s sl end.
+Proof.
+  intros (_ & _ & _ & D). destruct sl; cbn; try reflexivity. rewrite nf_opt_set by exact D.
+  destruct (e0 =? e); reflexivity.
+Qed.
+
+Lemma slook_delete_node s n s' sl : store_sorted s -> delete_node_isolated s n = DnOk s' ->
+  slook s' sl =
+  match sl with
+  | SNode _ n' | SNatt _ n' => if n' =? n then None else slook s sl
+  | _ => slook s sl
+  end.
+Proof.
+  intros (A & _ & C & _). unfold delete_node_isolated.
+  destruct (nfind n (s_nodes s)); [|discriminate]. destruct (existsb _ _); [discriminate|].
+  intros E; inversion E; subst. destruct sl; cbn; try reflexivity; rewrite nf_del by assumption;
+    match goal with |- context [?x =? ?y] => destruct (x =? y) end; reflexivity.
+Qed.
+
+Lemma slook_delete_edge s f e s' sl : store_sorted s -> delete_edge_exact s f e = Some s' ->
+  slook s' sl =
+  match sl with
+  | SEdge _ e' | SEatt _ e' => if e' =? e then None else slook s sl
+  | _ => slook s sl
+  end.
+Proof.
+  intros (_ & B & _ & D). unfold delete_edge_exact.
+  destruct (nfind e (s_edges s)); [|discriminate]. destruct (_ =? _); [|discriminate].
+  intros E; inversion E; subst. destruct sl; cbn; try reflexivity; rewrite nf_del by assumption;
+    match goal with |- context [?x =? ?y] => destruct (x =? y) end; reflexivity.
+Qed.
+
+(* side condition under which OpenPortal has a state independent effect: it creates its child *)
+Definition port_side (st : state) (o : op) : Prop :=
+  match o with
+  | OpenPortal _ cw _ init => get_inst st cw = None /\ init <> None
+  | _ => True
+  end.
+
+Lemma look_no_store st sl : get_store st (slot_warp sl) = None ->
+  match sl with SInst _ => True | _ => look st sl = None end.
+Proof. destruct sl; cbn; intros E; try exact I; rewrite E; reflexivity. Qed.
+
+Lemma look_upsert_instance st w m s sl :
+  look (upsert_instance st w m s) sl =
+  match sl with
+  | SInst w' => if w' =? w then Some (VInst m) else look st sl
+  | _ => if slot_warp sl =? w then slook s sl else look st sl
+  end.
+Proof.
+  destruct sl; cbn; unfold get_inst, get_store; cbn; rewrite nf_set;
+    destruct (N.eqb_spec w0 w); reflexivity.
+Qed.
+
+Lemma slook_empty sl : slook empty_store sl = None.
+Proof. destruct sl; reflexivity. Qed.
+
+Lemma validate_owner_ok st k pw : validate_owner st k = Ok pw ->
+  pw = ak_warp k /\ plane_valid k = true /\
+  exists s, get_store st pw = Some s /\
+            (if ak_edge k then has_edge s (ak_id k) = true else nmem (ak_id k) (s_nodes s) = true).
+Proof.
+  unfold validate_owner. destruct (plane_valid k); cbn; [|discriminate].
+  destruct (get_store st (ak_warp k)) as [s|] eqn:G; [|discriminate].
+  destruct (ak_edge k).
+  - destruct (has_edge s (ak_id k)) eqn:H; [|discriminate]. intros E; inversion E; subst. eauto 6.
+  - unfold mem. destruct (nfind (ak_id k) (s_nodes s)) eqn:H; [|discriminate].
+    intros E; inversion E; subst. split; [reflexivity|split; [reflexivity|]]. exists s. rewrite H. auto.
+Qed.
+
+Ltac slot_cases sl :=
+  destruct sl; cbn [wr slot_eqb slot_warp att_slot look slook orb andb]; eqb_cases;
+  cbn [orb andb]; try reflexivity; try congruence.
+
+Lemma apply_op_effect st o st' : Struct st -> port_side st o -> apply_op st o = Ok st' ->
+  forall sl, look st' sl = upd o (look st) sl.
+Proof.
+  intros HS Hside.
+  destruct o as [k cw cr init|w root parent|w|w n ty|w n|w e f t ty|w f e|k v]; cbn [apply_op]; unfold upd.
+  - (* OpenPortal *)
+    destruct Hside as [Hni Hinit]. destruct init as [ty|]; [|congruence].
+    unfold apply_open_portal, bind. destruct (validate_owner st k) as [pw|] eqn:V; [|discriminate].
+    apply validate_owner_ok in V. destruct V as (-> & Hpl & sp & Gp & Hown).
+    rewrite Hni. unfold set_att_raw.
+    assert (Hne : ak_warp k <> cw).
+    { intros E0. rewrite E0 in Gp. apply (sync_store_inst st cw HS) in Hni. congruence. }
+    assert (Gc : get_store st cw = None) by (apply (sync_store_inst st cw HS); exact Hni).
+    assert (G1 : get_store (upsert_instance st cw (cr, Some k) (insert_node empty_store cr ty)) (ak_warp k) = Some sp).
+    { unfold get_store, upsert_instance; cbn. rewrite nf_set. destruct (N.eqb_spec (ak_warp k) cw); [contradiction|exact Gp]. }
+    rewrite G1. intros E; inversion E; subst st'. clear E. intros sl.
+    pose proof (Struct_store _ _ _ HS Gp) as Hss.
+    rewrite look_put_store. unfold att_slot.
+    destruct (ak_edge k) eqn:Ek.
+    + destruct sl; cbn [wr slot_eqb slot_warp look slook]; rewrite ?Ek; cbn [slot_eqb];
+        rewrite ?look_upsert_instance; cbn [slot_warp];
+        rewrite ?slook_set_edge_att by exact Hss; rewrite ?slook_insert_node, ?slook_empty;
+        eqb_cases; cbn [andb orb]; try reflexivity; try congruence;
+        try (cbn [look slot_warp]; rewrite ?Gp, ?Gc; reflexivity).
+    + destruct sl; cbn [wr slot_eqb slot_warp look slook]; rewrite ?Ek; cbn [slot_eqb];
+        rewrite ?look_upsert_instance; cbn [slot_warp];
+        rewrite ?slook_set_node_att by exact Hss; rewrite ?slook_insert_node, ?slook_empty;
+        eqb_cases; cbn [andb orb]; try reflexivity; try congruence;
+        try (cbn [look slot_warp]; rewrite ?Gp, ?Gc; reflexivity).
+  - (* UpsertWI *)
+    intros E; inversion E; subst st'. clear E. intros sl. rewrite look_upsert_instance.
+    destruct (get_store st w) as [s|] eqn:G.
+    + destruct sl; cbn [wr slot_eqb slot_warp look slook]; eqb_cases; cbn [andb]; try reflexivity;
+        try (cbn [look slot_warp]; rewrite G; reflexivity).
+    + destruct sl; cbn [wr slot_eqb slot_warp look slook]; eqb_cases; cbn [andb]; try reflexivity;
+        try (cbn [look slot_warp]; rewrite G; reflexivity).
+  - (* DeleteWI *)
+    destruct (get_inst st w) eqn:Gi; [|discriminate]. intros E; inversion E; subst st'. clear E.
+    destruct HS as (A & B & _ & _).
+    intros sl. destruct sl; cbn [wr slot_warp look]; unfold get_inst, get_store; cbn;
+      rewrite nf_del by assumption; eqb_cases; reflexivity.
+  - (* UpsertNode *)
+    destruct (get_store st w) as [s|] eqn:G; [|discriminate]. intros E; inversion E; subst st'. clear E.
+    intros sl. rewrite look_put_store.
+    destruct sl; cbn [wr slot_eqb slot_warp]; rewrite ?slook_insert_node; eqb_cases; cbn [andb];
+      try reflexivity; try congruence; try (cbn [look slot_warp]; rewrite G; reflexivity).
+  - (* DeleteNode *)
+    destruct (get_store st w) as [s|] eqn:G; [|discriminate].
+    destruct (delete_node_isolated s n) as [s'| |] eqn:D; try discriminate.
+    intros E; inversion E; subst st'. clear E. pose proof (Struct_store _ _ _ HS G) as Hss.
+    intros sl. rewrite look_put_store.
+    destruct sl; cbn [wr slot_eqb slot_warp]; rewrite ?(slook_delete_node _ _ _ _ Hss D); eqb_cases;
+      cbn [andb orb]; try reflexivity; try congruence; try (cbn [look slot_warp]; rewrite G; reflexivity).
+  - (* UpsertEdge *)
+    destruct (get_store st w) as [s|] eqn:G; [|discriminate]. intros E; inversion E; subst st'. clear E.
+    intros sl. rewrite look_put_store.
+    destruct sl; cbn [wr slot_eqb slot_warp]; rewrite ?slook_upsert_edge; eqb_cases; cbn [andb];
+      try reflexivity; try congruence; try (cbn [look slot_warp]; rewrite G; reflexivity).
+  - (* DeleteEdge *)
+    destruct (get_store st w) as [s|] eqn:G; [|discriminate].
+    destruct (delete_edge_exact s f e) as [s'|] eqn:D; try discriminate.
+    intros E; inversion E; subst st'. clear E. pose proof (Struct_store _ _ _ HS G) as Hss.
+    intros sl. rewrite look_put_store.
+    destruct sl; cbn [wr slot_eqb slot_warp]; rewrite ?(slook_delete_edge _ _ _ _ _ Hss D); eqb_cases;
+      cbn [andb orb]; try reflexivity; try congruence; try (cbn [look slot_warp]; rewrite G; reflexivity).
+  - (* SetAtt *)
+    unfold apply_set_att. destruct (plane_valid k); cbn [negb]; [|discriminate].
+    destruct (get_store st (ak_warp k)) as [s|] eqn:G; [|discriminate].
+    pose proof (Struct_store _ _ _ HS G) as Hss. unfold att_slot.
+    destruct (ak_edge k) eqn:Ek.
+    + destruct (has_edge s (ak_id k)); [|discriminate]. intros E; inversion E; subst st'. clear E.
+      intros sl. rewrite look_put_store.
+      destruct sl; cbn [wr slot_eqb slot_warp]; rewrite ?slook_set_edge_att by exact Hss; eqb_cases;
+        cbn [andb]; try reflexivity; try congruence; try (cbn [look slot_warp]; rewrite G; reflexivity).
+    + destruct (nfind (ak_id k) (s_nodes s)); [|discriminate]. intros E; inversion E; subst st'. clear E.
+      intros sl. rewrite look_put_store.
+      destruct sl; cbn [wr slot_eqb slot_warp]; rewrite ?slook_set_node_att by exact Hss; eqb_cases;
+        cbn [andb]; try reflexivity; try congruence; try (cbn [look slot_warp]; rewrite G; reflexivity).
+Qed.
+
+(* ------------------------------------------------------------------ *)
 (* witnesses (replayed on the implementation by corpus/C04) *)
 
 (* F1: edge 9 moves from source node 1 to source node 2 and keeps its atom attachment *)
